@@ -139,7 +139,8 @@ def tree_effects(tree, into_sc=False):
             if nm in ("std::move", "std::forward") and n.get("args"):
                 yield ("move", n["args"][0], n)
             cid = n.get("callee")
-            if cid:
+            if cid and not n.get("noreturn"):
+                # (what a call that never returns does to its arguments cannot be observed afterwards: raise(..., x, ...))
                 ps = split_params(cid)
                 args = n.get("args", [])
                 if len(ps) >= len(args):
